@@ -422,7 +422,9 @@ def explore(ob: Obligation, fixed: dict, budget_s: float, known: list, seed: int
                             failure = ("unexpected-exception", "%s: %s" % (type(exc).__name__, exc), tb)
                     # realise the inputs of this path (for samples / counterexamples)
                     realized = None
-                    if failure or tolerated or len(res.samples) < want_samples:
+                    # (realising pins the symbolic inputs of this path to one value each, which adds decisions to the
+                    # path tree: only do it when the values are going to be reported)
+                    if failure or (tolerated and len(res.known_hits) < 5) or (not tolerated and len(res.samples) < want_samples):
                         with ResumedTracing():
                             realized = deep_realize(pre_args.arguments)
                         realized = dict(realized)
@@ -435,9 +437,9 @@ def explore(ob: Obligation, fixed: dict, budget_s: float, known: list, seed: int
                         status = VerificationStatus.REFUTED
                     elif tolerated:
                         full = dict(fixed)
-                        full.update(realized)
+                        full.update(realized or {})
                         res.tolerated += 1
-                        if len(res.known_hits) < 50:
+                        if realized is not None:
                             res.known_hits.append({"id": tolerated.finding.get("id"), "label": tolerated.label, "args": _jsonable(full)})
                         status = VerificationStatus.CONFIRMED
                         res.completed += 1
